@@ -167,6 +167,8 @@ func boundary() map[string][]string {
 		"tx m0:k1 foo=1 send;m0;a0;ugnot=1",
 		create(0, 2, 0, 0, "-", all),
 		"tx m0:k2 ugnot=1 exec;m0;r0;noop;-",
+		"tx m0:k2 ugnot=1",
+		"tx - ugnot=1",
 		"tx m0:k2 ugnot=0 exec;m0;r0;noop;-",
 		"tx m0:k2 ugnot=-1 exec;m0;r0;noop;-",
 		"tx m0:k2 ugnot=1 send;m1;a0;ugnot=1 exec;m0;r0;noop;-",
@@ -541,7 +543,7 @@ func malformedCase(w *kit.Out, r *kit.Rand, n int) {
 	badCoins := []string{"ugnot=0", "ugnot=-1", "ugnot=1+ugnot=2", "zed=1+atom=1", "UGNOT=1", "ug=1", "ugnot=1+atom=0", "atom=0+ugnot=0",
 		"ugnot", "=5", "ugnot=", "ugnot=1+", "-", "ugnot=99999999999999999999", "ugnot=9223372036854775808", "a/b=1", "/x:y=3", "ugnot=+1",
 		"ugnot=01", "ugnot=1+atom=2+zed=3+foo=4+bar=5", "ugnot=1.5", "9gnot=5"}
-	junk := []string{"", "x", "tx", "tx -", "tx - ugnot=1", "time", "time x", "time -1", "time 1099511627776", "fund", "fund m0", "fund m9 ugnot=1",
+	junk := []string{"", "x", "tx", "tx -", "tx - ugnot=1", "tx - ugnot", "time", "time x", "time -1", "time 1099511627776", "fund", "fund m0", "fund m9 ugnot=1",
 		"fund m0 ugnot=0", "fund m0 zed=1+atom=1", "fund m0 ugnot=1125899906842625", "fund a2 ugnot=1", "fund k18 ugnot=1", "fund m00 ugnot=1",
 		"realms x", "tx m0:k0,m0:k1 ugnot=1 send;m0;a0;ugnot=1", "tx m0 ugnot=1 send;m0;a0;ugnot=1", "tx m0:k0: ugnot=1 send;m0;a0;ugnot=1",
 		"tx - ugnot=1 send;a0;m0;ugnot=1", "tx - ugnot=1 send;m0;a0", "tx - ugnot=1 exec;m0;r4;noop;-", "tx - ugnot=1 exec;m0;r0;grow199;-",
